@@ -106,16 +106,15 @@ Definition pdf_levels : list Z := [0; 1; 2; 3; 4; 5; 6; 7; 8].
 
 (* correctionFactors[l] ++ [1] = coefficients of prod_{j=1..2^(l+1)} (x - 3^j) mod 929,
    the product being computed here, in the kernel *)
-Definition pdf_factors_gen_b : bool :=
-  forallb (fun l =>
-    match zget pdf_correction_factors l with
-    | Some f =>
-      let g := pdfs_generator (Z.to_nat (pdf_ec_count l)) in
-      (length f + 1 =? length g)%nat && forallb (fun p => fst p =? snd p) (combine (f ++ [1]) g)
-    | None => false
-    end) pdf_levels.
+Definition pdf_level_gen_b (l : Z) : bool :=
+  match zget pdf_correction_factors l with
+  | Some f =>
+    let g := pdfs_generator (Z.to_nat (pdf_ec_count l)) in
+    (length f + 1 =? length g)%nat && forallb (fun p => fst p =? snd p) (combine (f ++ [1]) g)
+  | None => false
+  end.
 
-Lemma pdf_tab_factors_generator : pdf_factors_gen_b = true.
+Lemma pdf_tab_factors_generator : forallb pdf_level_gen_b pdf_levels = true.
 Proof. vm_cast_no_check (eq_refl true). Qed.
 
 Lemma pdf_tab_factors_count : length pdf_correction_factors = 9%nat.
@@ -139,14 +138,12 @@ Definition pdf_level_roots_b (l : Z) : bool :=
   | None => false
   end.
 
-Definition pdf_factors_roots_b : bool := forallb pdf_level_roots_b pdf_levels.
-
-Lemma pdf_tab_factors_roots : pdf_factors_roots_b = true.
+Lemma pdf_tab_factors_roots : forallb pdf_level_roots_b pdf_levels = true.
 Proof. vm_cast_no_check (eq_refl true). Qed.
 
 Lemma pdf_tab_level_roots l : 0 <= l <= 8 -> pdf_level_roots_b l = true.
 Proof.
-  intros Hl. pose proof pdf_tab_factors_roots as H. unfold pdf_factors_roots_b in H.
+  intros Hl. pose proof pdf_tab_factors_roots as H.
   rewrite forallb_forall in H. apply H. unfold pdf_levels. simpl. lia.
 Qed.
 
